@@ -47,7 +47,7 @@ def cn_xml(lit, ent=None):
     return '<cn cellml:units="dimensionless">%s</cn>' % text
 
 
-def document(lits, entities=False, explit=None, tinit=None):
+def document(lits, entities=False, explit=None, tinit=None, compound=None):
     ent = [] if entities else None
     vs = ['<variable name="t" units="second"%s/>' % (' initial_value="%s"' % tinit['text'] if tinit else ''),
           '<variable name="x" units="dimensionless" initial_value="%s"/>' % lits[0]['text']]
@@ -63,6 +63,15 @@ def document(lits, entities=False, explit=None, tinit=None):
         # a literal placed directly as the exponent of a power
         vs.append('<variable name="pw" units="dimensionless"/>')
         eqs.append('<apply><eq/><ci>pw</ci><apply><power/><ci>x</ci>%s</apply></apply>' % cn_xml(explit, ent))
+    if compound is not None:
+        # literals inside larger expressions: c * exp(x) - n   and   c * piecewise(a if x < th else b) + d
+        cn = lambda t: '<cn cellml:units="dimensionless">%s</cn>' % t      # noqa: E731
+        c, n_, c2, a, th, b, d_ = compound
+        vs.append('<variable name="we" units="dimensionless"/><variable name="wp" units="dimensionless"/>')
+        eqs.append('<apply><eq/><ci>we</ci><apply><minus/><apply><times/>%s<apply><exp/><ci>x</ci></apply></apply>%s</apply></apply>'
+                   % (cn(c), cn(n_)))
+        eqs.append('<apply><eq/><ci>wp</ci><apply><plus/><apply><times/>%s<piecewise><piece>%s<apply><lt/><ci>x</ci>%s</apply>'
+                   '</piece><otherwise>%s</otherwise></piecewise></apply>%s</apply></apply>' % (cn(c2), cn(a), cn(th), cn(b), cn(d_)))
     doctype = ''
     if ent:
         doctype = '<!DOCTYPE model [' + ''.join('<!ENTITY n%d "%s">' % (k, t) for k, t in enumerate(ent)) + ']>'
@@ -115,7 +124,7 @@ def run_impl(case):
     out = {'obs': [dict() for _ in lits], 'precs': [], 'load': None}
     fd, path = tempfile.mkstemp(suffix='.cellml')
     try:
-        os.write(fd, document(lits, case.get('entities', False), case.get('explit'), case.get('tinit')).encode())
+        os.write(fd, document(lits, case.get('entities', False), case.get('explit'), case.get('tinit'), case.get('compound')).encode())
         os.close(fd)
         try:
             m = cellmlmanip.load_model(path)
@@ -208,6 +217,18 @@ def run_impl(case):
             guard(o, 'doprint', lambda: float(pr.doprint(srhs).split('**')[1].strip().strip('()')) if '**' in pr.doprint(srhs) else 1.0)
         except Exception as e:
             o['stripped'] = 'ERR:' + vlib.err_class(e)
+    if case.get('compound') is not None:
+        import re as _re
+        o = out['extra']['compound'] = {}
+        num = _re.compile(r'(?<![\w.])\d+\.?\d*(?:[eE][-+]?\d+)?')
+        for nm_ in ('we', 'wp'):
+            wv = m.get_variable_by_name('c$' + nm_)
+            try:
+                srhs = [eq.rhs for eq in m.get_equations_for([wv], strip_units=True) if eq.lhs is wv][0]
+                o[nm_ + ':stripped'] = sorted(abs(float(f)).hex() for f in srhs.atoms(sympy.Float))
+                o[nm_ + ':doprint'] = sorted(abs(float(t_)).hex() for t_ in num.findall(pr.doprint(srhs)))
+            except Exception as e:
+                o[nm_ + ':stripped'] = 'ERR:' + vlib.err_class(e)
     if case.get('tinit') is not None:
         o = out['extra']['tinit'] = {}
         t = m.get_variable_by_name('c$t')
@@ -238,6 +259,16 @@ def judge(case, res):
                 bad.append(('%s of literal %r is %s, the nearest double of the text is %s (%r)'
                             % (name, python_text(lit), got if got.startswith('ERR') else
                                '%s (%r)' % (got, float.fromhex(got)), want, float.fromhex(want)), i, name))
+    if case.get('compound') is not None:
+        c, n_, c2, a, th, b, d_ = case['compound']
+        want = {'we': sorted(abs(float(t_)).hex() for t_ in (c, n_)), 'wp': sorted(abs(float(t_)).hex() for t_ in (c2, a, th, b, d_))}
+        for name, got in sorted((res.get('extra') or {}).get('compound', {}).items()):
+            if got != want[name.split(':')[0]]:
+                bad.append(('the numbers of %s in the equation %s = %s are %s, the document\'s literals are %s'
+                            % (name.split(':')[1], name.split(':')[0],
+                               'c*exp(x) - n' if name.startswith('we') else 'c*piecewise(a if x < th else b) + d',
+                               got if isinstance(got, str) else [float.fromhex(g) for g in got],
+                               [float.fromhex(g) for g in want[name.split(':')[0]]]), None, name))
     for key, where in (('explit', 'written as the exponent of a power'), ('tinit', 'the initial_value of the variable of integration')):
         lit = case.get(key)
         if lit is None:
@@ -415,6 +446,11 @@ def gen_case(seed, nlits=12):
         text = r.choice(['2.0000000001', '0.9999999999', '3.0000000000000004', '-1.9999999999999998', '2.5', '1.0000000000000002',
                          '400000000001e-11', '0.5000000000000001', '-0.33333333333333337', '7.000000000000001'])
         case['explit'] = {'form': 'cn', 'text': text, 'exp': None}
+    if r.random() < 0.5:
+        # literals inside larger expressions (distinct, none of them 1 or an integer SymPy would fold structurally)
+        pool = ['2.5', '3.3', '1.1', '7.3', '0.3', '1000.1', '0.001', '1.0000000000000002', '6.02214076e23', '4.9e-324',
+                '1.7976931348623157e308', '0.30000000000000004', '12345.678901234567', '9.5e-7']
+        case['compound'] = r.sample(pool, 7)
     if r.random() < 0.4:
         x = rand_value(r, r.choice(['bits', 'moderate', 'short', 'extreme', 'subnormal']))
         if x != 0 and math.isfinite(x):
